@@ -231,3 +231,18 @@ func VerifWire2Marks(body interface{}, size int) (marks []VerifWire2Mark, err er
 	}
 	return m.marks, nil
 }
+
+// VerifWire2StickyUserData is deserializeTopicPartitionAssignment (the sticky assignor reading the user data another
+// member wrote): the decoded value (*StickyAssignorUserDataV1 or *StickyAssignorUserDataV0) or an error.
+func VerifWire2StickyUserData(b []byte) (data interface{}, err error, panicked interface{}) {
+	defer func() {
+		if r := recover(); r != nil {
+			panicked = r
+		}
+	}()
+	d, err := deserializeTopicPartitionAssignment(b)
+	if err != nil {
+		return nil, err, nil
+	}
+	return d, nil, nil
+}
